@@ -62,6 +62,10 @@ CHECKS = {
          "Eight unary predicates on every digraph of order <=4 (5) x 5 reps, AdjacencyMap over non-contiguous pools, near-miss families for EVERY pair position at orders 5..33 x worker counts 1..16; three binary relations over every ordered pair up to (3,3),(4,2) ((4,4) thorough).",
          "Trusted: set definitions. shuttle treats the Relaxed flag as SeqCst (monotone-flag argument in DESIGN.md).",
          "DESIGN.md 5 C12"),
+ "C13": ("E-MEM", "exhaustive enumeration of short API programs (every entry point x every small digraph x in/out-of-domain arguments), each executed under Miri, valgrind memcheck, a debug-assertion build and a counting allocator",
+         "Every program `build G; call E(args) [; call E2]` of the catalogue (23 377 programs quick, 164 286 thorough): the debug-assertion build must return or panic (never abort/signal), the heap must not grow between 3 and 6 repetitions, valgrind memcheck must stay silent, and Miri (UB + data-race detector, threaded routines with 1-3 workers) must accept the program (quick: the 1 842 programs of the raw-pointer groups of the mini catalogue; thorough: catalogue level 1). Canaries prove on every run that each observer flags wrong code.",
+         "Trusted: Miri, valgrind, the allocator shim. Programs <= 2 calls, orders <= 3; Miri explores one schedule per program and loses precision across usize pointer casts.",
+         "DESIGN.md 3.7, 5 C13"),
  "C14": ("E-ENUM+E-CONF", "exhaustive sweep of generator parameters (orders 0..130, (m,n) grid) x 4 representations x worker counts, real generators vs closed-form arc sets",
          "Seven order-parameterised generators at every order 0..=40, 63..=66, 127..=130 (0..=130 thorough) in four representations vs closed forms and vs each other; AdjacencyList::complete for every n<=34 (70) x every worker count 1..=17 (33) and Err; biclique grid incl. zeros; inadmissible parameters panic.",
          "Trusted: closed forms in gens.rs. Orders > 130 not explored.",
